@@ -280,6 +280,11 @@ class Ctx:
         if is_f(cond) or not self.feasible(TRUE):
             raise PathAbort()
 
+    def constrain_fresh(self, cond):
+        """add a constraint that is known to be satisfiable together with the path condition (range of a fresh
+        variable): no feasibility query"""
+        self._push(cond)
+
     def oblige(self, term, label, info=None):
         """register obligation PC => term"""
         if isinstance(term, SymBool):
@@ -1181,10 +1186,12 @@ def real(name, nan=False, inf=False):
 def integer(name, lo=None, hi=None):
     t = z3.Int(name)
     c = cur()
+    if lo is not None and hi is not None and lo > hi:
+        raise PathAbort()
     if lo is not None:
-        c.assume(t >= lo)
+        c.constrain_fresh(t >= lo)
     if hi is not None:
-        c.assume(t <= hi)
+        c.constrain_fresh(t <= hi)
     return SymInt(t)
 
 
